@@ -99,8 +99,8 @@ func c01Diff(path string, x, y any, out *[]string) {
 				return
 			}
 			am, bm := map[string]string{}, map[string]string{}
-			for _, e := range a {
-				if len(e.Value) > 0 {
+			for _, e := range a { // normal form: of several values under one tag the first is the one written (and the one Get returns)
+				if _, dup := am[string(e.Ref)]; len(e.Value) > 0 && !dup {
 					am[string(e.Ref)] = string(e.Value)
 				}
 			}
@@ -367,7 +367,9 @@ func probeValues(g *Gen, t reflect.Type, name string) []reflect.Value {
 	case t == tNlv:
 		return []reflect.Value{v(ap.NaturalLanguageValues{{Ref: ap.NilLangRef, Value: ap.Content("text")}}), v(ap.NaturalLanguageValues{{Ref: "en", Value: ap.Content("text")}}),
 			v(ap.NaturalLanguageValues{{Ref: "en", Value: ap.Content("hello")}, {Ref: "fr", Value: ap.Content("salut")}}),
-			v(ap.NaturalLanguageValues{{Ref: ap.NilLangRef, Value: ap.Content("plain")}, {Ref: "fr", Value: ap.Content("salut")}})}
+			v(ap.NaturalLanguageValues{{Ref: ap.NilLangRef, Value: ap.Content("plain")}, {Ref: "fr", Value: ap.Content("salut")}}),
+			// a tag that occurs twice, followed by other tags: the first value of the repeated tag and every other tag come back
+			v(ap.NaturalLanguageValues{{Ref: "en", Value: ap.Content("first")}, {Ref: "en", Value: ap.Content("second")}, {Ref: "fr", Value: ap.Content("salut")}, {Ref: "de", Value: ap.Content("hallo")}})}
 	case t == tTime:
 		return []reflect.Value{v(time.Unix(1700000000, 0).UTC()), v(time.Unix(1700000000, 0).In(time.FixedZone("", 3600))), v(time.Unix(-1000000, 0).UTC())}
 	case t == tDur:
